@@ -227,6 +227,30 @@ def pair_family(ctx) -> list:
     return [c18_run.Case("bbb", "hand_made.mpd", mode, q, d, now) for mode, q, d in grid]
 
 
+SHORT_NOWS = ["2024-09-02T09:57:02.300000Z", "2024-09-02T09:57:03.950000Z", "2024-09-02T09:57:02Z",
+              "2024-09-02T09:57:05.500000Z", "2024-09-02T09:57:04.100000Z"]
+
+
+def short_family(ctx) -> list:
+    """live sessions over stored media with SHORT segments (0.5 s, 1 s, 1.9 s, 2.0 s, 2.1 s – around the
+    two-second margin of the validator's `no longer available` rule), $Time$ and $Number$ addressing, at several
+    phases of the clock against the segment grid.  Pristine here; `gen_corruptions` addresses the catalogue to
+    the OLDEST, the second-oldest and the NEWEST segment the manifest lists."""
+    import c18_run
+    import c18_layouts
+    out = []
+    for i, name in enumerate(c18_layouts.SHORT):
+        STREAMS.setdefault(name, {"vod_max": 4, "enc": False})
+        for j, q in enumerate(({"depth": "8", "timeline": "1"}, {"depth": "8"})):
+            if j == 1 and not ctx.thorough and i % 2 == 1:
+                continue
+            out.append(c18_run.Case(name, "hand_made.mpd", "live", dict(q), 6, SHORT_NOWS[(i + 2 * j) % len(SHORT_NOWS)]))
+        if ctx.thorough:
+            for now in SHORT_NOWS[1:]:
+                out.append(c18_run.Case(name, "hand_made.mpd", "live", {"depth": "8", "timeline": "1"}, 6, now))
+    return out
+
+
 def handon_family(ctx) -> list:
     """sessions in which the validator follows what the server hands on to a *later* request – the
     PatchLocation chain of `patch=1` (every refresh is a request to the URL the previous answer spelled out) and
@@ -329,7 +353,7 @@ def gen_pristine(ctx, rng):
                     cases.append(c18_run.Case(stream, name, mode, q, dur, now))
     # the fixed grids come first (the sampled option sets above follow them): deterministic in every tier and
     # exempt from the time limit of the pristine phase
-    fixed = pair_family(ctx) + handon_family(ctx) + clock_family(ctx) + layout_family(ctx, rng) + \
+    fixed = short_family(ctx) + pair_family(ctx) + handon_family(ctx) + clock_family(ctx) + layout_family(ctx, rng) + \
         refresh_family(ctx, rng)
     _STATE["n_fixed"] = len(fixed)
     cases = fixed + cases
@@ -456,6 +480,22 @@ def gen_corruptions(ctx, rng, base, res, per_base: int):
                                    "leading": cls_})
             placed.append({"kind": "trun", "rep": rid, "nth": nth, "delta": rng.choice([mp, -mp, 4]), "place": cls_,
                            "leading": cls_})
+    # … and, in live sessions, addressed to the OLDEST, the second-oldest and the NEWEST segment the first
+    # manifest LISTS (by URL – whether the validator ever asks for it is part of what is observed)
+    if base.mode == "live":
+        pool = [(rid, r) for rid, r in sorted(reps.items())
+                if len(r["segments"]) >= 2 and r["dash_ts"] and all(s.get("url") for s in r["segments"])]
+        for pi_, (pos, idx) in enumerate((("oldest", 0), ("second", 1), ("newest", -1))):
+            if not pool:
+                break
+            rid, r = pool[(pi_ + rng.randrange(0, len(pool))) % len(pool)] if pos != "oldest" else pool[-1]
+            ts = r["dash_ts"]
+            big = max(ts, 2 * max(s["tol"] for s in r["segments"]) + 1)
+            kind = rng.choice(["tfdt", "mfhd", "trun"] + (["saio"] if r["encrypted"] else []))
+            delta = {"tfdt": rng.choice([big, big + ts // 2]), "mfhd": rng.choice([1, 2, 7]),
+                     "trun": rng.choice([4, -8, 1 << 20]), "saio": rng.choice([1, -1, 8])}[kind]
+            placed.append({"kind": kind, "rep": rid, "nth": 0, "delta": delta, "place": "listed-" + pos,
+                           "target_url": r["segments"][idx]["url"]})
     for rid, n in sorted(counts.items()):
         r = reps.get(rid)
         if r is None or not r["segments"]:
@@ -663,6 +703,34 @@ def negated_hypotheses(case, res) -> dict:
     return out
 
 
+def listed_slack_us(res, url: str):
+    """for the listed segment behind `url`: how long after the first pass the segment stays inside the time
+    shift buffer the manifest announces, counted as DASH does (segment end + timeShiftBufferDepth + one segment
+    duration) – from the manifest's own numbers, not from the validator's bookkeeping"""
+    if not res.passes:
+        return None
+    p0 = res.passes[0]
+    now_us = M.us_of_iso(p0["now"])
+    tsbd = p0["post"].get("tsbd_us")
+    for rep in p0["post"]["reps"]:
+        for sg in rep["segments"]:
+            if sg.get("url") != url or tsbd is None or rep.get("period_ast_us") is None or not rep["dash_ts"]:
+                continue
+            ts = rep["dash_ts"]
+            sd = rep["tmpl_duration"]
+            if sd is None and rep.get("timeline"):
+                sd = sum(d for _, d in rep["timeline"]) // len(rep["timeline"])
+            if sd is None:
+                return None
+            if rep.get("timeline") is not None and sg["exp_dt"] is not None:
+                decode = sg["exp_dt"]
+            else:
+                decode = (sg["exp_seq"] - rep["start_number"]) * sd
+            end = rep["period_ast_us"] + (decode + sd - (rep["tmpl_pto"] or 0)) * 1_000_000 // ts
+            return end + tsbd + sd * 1_000_000 // ts - now_us
+    return None
+
+
 def oracle(case, res) -> list:
     """the property text on one session → list of failures (dicts)"""
     fails = []
@@ -688,6 +756,15 @@ def oracle(case, res) -> list:
             fail("validator reports errors on a pristine stream", errors=[e["msg"][:160] for e in res.errors[:5]])
         elif not res.finished:
             fail("validator did not finish within its refresh budget on a pristine stream", loops=res.loops)
+        return fails
+    if res.applied is None and "target_url" in c and not c.get("probe"):
+        # the corrupted response belongs to a segment the manifest lists and the server still offers; the
+        # validator declared the segment done without ever asking for it and reports nothing
+        u = res.unexamined
+        if u and u["status"] == 200 and u.get("given_up") and not res.errors and not res.crashed:
+            fail("a segment the manifest lists and the server serves was declared validated without being "
+                 "examined: a corruption of it cannot be flagged", url=u["url"], at=u["now"],
+                 slack_us=listed_slack_us(res, u["url"]))
         return fails
     if res.applied is None or c.get("probe"):
         return fails
@@ -920,6 +997,59 @@ def correspond(case, res, chs, batch: Batch):
             chs["vrep"].count(f"segments:{min(len(toks), 12)}")
             if len(toks) >= 2:
                 chs["vrep"].nontrivial.add((rid, pi, case.key()))
+
+    # ---- vavail: the availability interval of every segment and what the validator did with it before any
+    # request (left for later / given up / fetched), at the instant of each pass
+    if case.mode == "live":
+        # first pass only: the interval is fixed when the segment is created, from the manifest of that moment
+        # (a refreshed manifest may carry another mean segment duration or, with a symbolic start, another AST)
+        for pi, p in enumerate(res.passes[:1]):
+            tsbd = p["post"].get("tsbd_us")
+            now_us = M.us_of_iso(p["now"])
+            pre = {r["id"]: r for r in p["pre"]["reps"]}
+            for rpost in p["post"]["reps"]:
+                rpre = pre.get(rpost["id"])
+                if rpre is None or tsbd is None or rpost.get("period_ast_us") is None or not rpost["dash_ts"] or \
+                        len(rpre["segments"]) != len(rpost["segments"]):
+                    continue
+                sd = rpost["tmpl_duration"]
+                if sd is None and rpost.get("timeline"):
+                    sd = sum(d for _, d in rpost["timeline"]) // len(rpost["timeline"])
+                if not sd:
+                    continue
+                cfg = ",".join(str(x) for x in (rpost["period_ast_us"], tsbd, rpost["dash_ts"], rpost["tmpl_pto"] or 0,
+                                                rpost["start_number"], sd, now_us))
+                # the loop over the segments stops once the requested duration is validated: a segment behind
+                # the last one this pass dealt with was not looked at (its `N` is no decision)
+                touched = [i for i, (a_, b_) in enumerate(zip(rpre["segments"], rpost["segments"]))
+                           if b_["validated"] and not a_["validated"]]
+                last_touched = max(touched) if touched else -1
+                for si, (spre, spost) in enumerate(zip(rpre["segments"], rpost["segments"])):
+                    if spre["oid"] != spost["oid"] or spre["validated"] or spost["avail_start_us"] is None:
+                        continue
+                    e = dict(spre)
+                    if rpost.get("timeline") is None:
+                        e["exp_dt"] = None      # the interval is fixed at creation, before a decode time is inherited
+                    did = "N" if not spost["validated"] else ("F" if (spost["url"], pi) in by_url else "X")
+                    real = f"{spost['avail_start_us']} {spost['avail_end_us']} {did}"
+                    canon = None
+                    if did == "N" and si > last_touched:
+                        did = "unvisited"
+                        real = real[:-2]
+                        canon = (lambda t: t[:-2])
+                    batch.add(chs["vavail"], f"vavail {cfg} {M.exp_token(e)}", real,
+                              {**info, "rep": rpost["id"], "segment": spost["name"], "pass": pi}, canon=canon)
+                    dur_us = sd * 1_000_000 // rpost["dash_ts"]
+                    cls_ = "<1s" if dur_us < 1_000_000 else "<2s" if dur_us < 2_000_000 else "=2s" if dur_us == 2_000_000 \
+                        else "<=4s" if dur_us <= 4_000_000 else ">4s"
+                    where = "oldest" if si == 0 else "second" if si == 1 else "newest" if si == len(rpre["segments"]) - 1 \
+                        else "interior"
+                    chs["vavail"].count(f"decision:{did}:segment-duration{cls_}:{where}")
+                    # the listing hypothesis of listed_segment_examined on the first pass: the segment ends
+                    # after the left edge of the window
+                    if pi == 0:
+                        chs["vavail"].count("listed-ends-inside-window:" + M.b(spost["avail_start_us"] > now_us - tsbd))
+                    chs["vavail"].nontrivial.add((rpost["id"], spost["name"], did, case.key()))
 
     last = res.passes[-1]["post"] if res.passes else None
     if last is None or not last.get("lines"):
@@ -1369,6 +1499,12 @@ RULES = {
            "non-trivial = at least two S elements",
     "vgen": "expectations generated at load: timeline mode (sequence number, decode time, duration, tolerance per "
             "segment), template mode ($Number$ window at the session clock, tolerances, VOD numbering)",
+    "vavail": "live sessions, first pass, every listed segment: the availability interval the "
+              "validator attached to the segment when it was created from the first manifest (start = complete, end = start + timeShiftBufferDepth + one segment "
+              "duration) and what it did with the segment at the instant of the pass – left for later / given up "
+              "without a request / fetched – vs the model's segmentAvailability and availDecision on the manifest's "
+              "numbers; streams with 0.5 s … 10 s segments, $Time$ and $Number$, several clock phases; "
+              "distinct by (representation, segment, decision, case)",
     "vinit": "init segment: top-level and moov box inventory (mp4walk) vs the set of error kinds the validator "
              "attached to the InitSegment; non-trivial = rewritten init segment",
     "vmpd": "manifest as the validator saw it (lxml): presence of the mandatory attributes per element vs the "
@@ -1459,6 +1595,16 @@ def run_sessions(app, cases, chs, batch, limit_s=None):
         label = "pristine" if c is None else (("probe:" if c.get("probe") else "") + c["kind"])
         if c is not None and res.applied is None:
             run.count(f"not-applicable:{label}")
+            if "target_url" in c:
+                u = res.unexamined or {}
+                run.count(f"listed-segment-not-requested:{c['place']}:" +
+                          ("given-up" if u.get("given_up") else "left-for-later") + f":server-{u.get('status')}")
+                for f in oracle(case, res):
+                    run.oracle_failures.append(f)
+                try:
+                    correspond(case, res, chs, batch)
+                except Exception as e:
+                    run.errors.append(f"correspond crashed on {case.path()} {c}: {type(e).__name__}: {e}")
             continue
         run.count(f"{case.mode}:{label}")
         if c is not None and "when" in c:
@@ -1504,7 +1650,7 @@ def channels(ctx):
     batch = Batch()
     rng = ctx.rng("validator_run")
     pristine = gen_pristine(ctx, rng)
-    budget = 75 if not ctx.thorough else 560
+    budget = 75 if not ctx.thorough else 520
     t0 = time.time()
     n_fixed = _STATE.get("n_fixed", 0)
     done = run_sessions(app, pristine[:n_fixed], chs, batch, limit_s=None)
@@ -1553,6 +1699,15 @@ def channels(ctx):
         if "place" in c.corruption:
             # … in static and live sessions, $Time$ and $Number$ addressing
             k += (c.corruption["place"], addressing(c))
+            if "target_url" in c.corruption:
+                import c18_layouts
+                k = ("listed", c.corruption["place"], c.stream if c.stream in c18_layouts.SHORT else addressing(c))
+                if seen.get(k, 0) < (1 if not ctx.thorough else 6):
+                    seen[k] = seen.get(k, 0) + 1
+                    attr_first.insert(0, c)
+                else:
+                    rest.append(c)
+                continue
             if "leading" in c.corruption:
                 k += (c.corruption["delta"] > 0, abs(c.corruption["delta"]) > 8)
             limit = 1 if not ctx.thorough else 8
@@ -1599,7 +1754,7 @@ def channels(ctx):
     batch.run()
     run = chs["validator_run"]
     # verdict-level correspondence: a disagreement in any sub-channel is a verdict disagreement of its session
-    for name in ("vrep", "vseg", "vsegx", "vtl", "vgen", "vinit", "vmpd", "vrefresh", "vreport"):
+    for name in ("vrep", "vseg", "vsegx", "vtl", "vgen", "vavail", "vinit", "vmpd", "vrefresh", "vreport"):
         yield chs[name]
     yield run
 
@@ -1714,6 +1869,10 @@ def matches_finding(finding, failure):
     if "attr" in region:
         return c.get("kind") == "mpdattr" and c.get("attr") == region["attr"] and \
             case.get("mode") == region.get("mode", case.get("mode"))
+    if "skipped_slack_below_us" in region:
+        # the listed segment leaves the announced buffer (+ one segment) within the validator's safety margin
+        return bool(c.get("target_url")) and failure.get("slack_us") is not None and \
+            failure["slack_us"] < region["skipped_slack_below_us"] and "without being examined" in failure.get("what", "")
     if "initbox" in region:
         return c.get("kind") == "initbox" and c.get("box", "").split("/")[-1] in region["initbox"] and \
             c.get("rep", "").endswith("_enc") and "_v" not in c.get("rep", "")
